@@ -575,7 +575,9 @@ func (s *Sim) MapAccess(site string, id uintptr, write bool) {
 		return
 	}
 	for _, p := range s.mapPend[id] {
-		if p.t != t && (p.write || write) {
+		// tasks of two simulated gateway processes share package-level variables only because the
+		// simulation runs them in one OS process: not a collision
+		if p.t != t && p.t.Inst == t.Inst && (p.write || write) {
 			s.Probes["map_access_collision"]++
 			if len(s.MapRaces) < 16 {
 				s.MapRaces = append(s.MapRaces, MapRace{SiteA: p.site, SiteB: site, WriteA: p.write, WriteB: write, TaskA: p.t.ID, TaskB: t.ID, ReqA: p.t.ReqID, ReqB: t.ReqID})
